@@ -100,6 +100,9 @@ func settleRegistry(ctx context.Context, r domain.ModelRegistry) {
 
 const M = "mm-7b"
 
+// M2 is listed by exactly the endpoints that do not list M.
+const M2 = "other-9b"
+
 func TestC09(t *testing.T) {
 	world.Quiet()
 	run := rep.New("C09", "exploration",
@@ -186,6 +189,8 @@ func runCfg(run *rep.Run, c cfg, id int) {
 			names := []string{"filler-" + b.Name}
 			if L&(1<<i) != 0 {
 				names = append(names, M, "Tagged:Latest")
+			} else {
+				names = append(names, M2) // a second model, listed by exactly the other endpoints
 			}
 			b.SetModels(names)
 		}
@@ -213,7 +218,12 @@ func runCfg(run *rep.Run, c cfg, id int) {
 				vs = append(vs, others[caseN%len(others)], others[(caseN+3)%len(others)])
 			}
 			caseN++
-			for _, v := range vs {
+			for vi, v := range vs {
+				if vi%3 == 0 {
+					// requests for the other model in between: what was decided for one model must
+					// not leak into the decision for the next
+					oneCase(run, c, st, hc, backs, N, H, (1<<N-1)&^L, "proxy", "exact", M2, fmt.Sprintf("c%dn%do%d", id, caseN, vi))
+				}
 				oneCase(run, c, st, hc, backs, N, H, L, v.route, v.spelling, v.model, fmt.Sprintf("c%dn%d", id, caseN))
 			}
 		}
